@@ -516,10 +516,10 @@ theorem same_step_partial {k1 k2 : Kernel} (s : SameDefs k1 k2) (i1 : GInv k1) (
   | deleteEdge e => exact same_deleteEdge_deferred s i1 i2 hc e
   | deleteFace f => exact same_deleteFace_deferred s i1 i2 hc f
   | deleteCell c => exact same_deleteCell_deferred s hc c
-  | swapVertex a b => exact same_swapVertex s i1 i2 hok.1 hok.2
-  | swapEdge a b => exact same_swapEdge s i1 i2 hok.1 hok.2
-  | swapFace a b => exact same_swapFace s i1 i2 hok.1 hok.2
-  | swapCell a b => exact same_swapCell s i1 hok.1 hok.2
+  | swapVertex a b => exact same_swapVertex s i1.wf i2.wf hok.1 hok.2
+  | swapEdge a b => exact same_swapEdge s i1.wf i2.wf hok.1 hok.2
+  | swapFace a b => exact same_swapFace s i1.wf i2.wf i1.one i2.one hok.1 hok.2
+  | swapCell a b => exact same_swapCell s i1.wf hok.1 hok.2
   | collectGarbage =>
     show SameDefs k1.collectGarbage k2.collectGarbage
     rw [collectGarbage_id hc, collectGarbage_id (by rw [← s.deferred, ← s.needsGC]; exact hc)]
